@@ -1,4 +1,5 @@
 import Tv.Thm.C08
+import Tv.Thm.C08Gen
 #print axioms Tv.C08.decode_float
 #print axioms Tv.C08.decode_opt
 #print axioms Tv.C08.encodings_agree
@@ -8,3 +9,17 @@ import Tv.Thm.C08
 #print axioms Tv.C08.out_encodings
 #print axioms Tv.C08.feat_encoding_indep
 #print axioms Tv.C08.feat_valid_only
+#print axioms Tv.C08Gen.vapplyN_valid
+#print axioms Tv.C08Gen.vfoldN_valid
+#print axioms Tv.C08Gen.vfold_valid
+#print axioms Tv.C08Gen.vsum_nulls
+#print axioms Tv.C08Gen.vmean_nulls
+#print axioms Tv.C08Gen.vmean_var_nulls
+#print axioms Tv.C08Gen.vvar_nulls
+#print axioms Tv.C08Gen.vstd_nulls
+#print axioms Tv.C08Gen.vskew_nulls
+#print axioms Tv.C08Gen.vmax_nulls
+#print axioms Tv.C08Gen.vmin_nulls
+#print axioms Tv.C08Gen.fold_complete
+#print axioms Tv.C08Gen.vcov_nulls
+#print axioms Tv.C08Gen.vcorr_nulls
